@@ -672,6 +672,24 @@ def loadLinkStep (r : Repo) (bi : Nat) : Repo :=
       if h ≠ b.parentHeight then r
       else { (r.setBranch bi { b with parent := some c }) with branches := r.branches ++ [bi] }
 
+/-- `load`, after the indexed branch files have been read and placed: sort by parent height, link,
+    choose the longest linked branch, read the historical heights. -/
+def loadFinish (r1 : Repo) (loaded : List Nat) : Repo × Option Fail :=
+  if loaded.isEmpty then (r1, some (.err "No branches loaded"))
+  else
+    let sorted := sortByPH r1.arena loaded
+    let r2 := sorted.foldl loadLinkStep { r1 with branches := [] }
+    -- (repaired) only a branch that could be linked can be the longest
+    if r2.branches.isEmpty then (r2, some (.err "No branches linked"))
+    else
+      match longestOf r2.arena r2.branches with
+      | none => (r2, some (.panic "Longest: Last() on empty branch"))
+      | some lg =>
+        let r2 := { r2 with longest := lg }
+        match loadHistorical r2 with
+        | .error e => (r2, some e)
+        | .ok r3 => (r3, none)
+
 /-- `migrate` / `initializeWithGenesis` are handled by the driver-level `init` for now: loading
     storage without a branch index yields the error class `no-index`. -/
 def load (r0 : Repo) (depth : Int) (genesis : Hdr) : Repo × Option Fail :=
@@ -700,21 +718,7 @@ def load (r0 : Repo) (depth : Int) (genesis : Hdr) : Repo × Option Fail :=
             .ok (loadPlace r bs keep (loadPruneHeight bs keep keepHeight))
       match rdAll with
       | .error e => (r, some e)
-      | .ok (r1, loaded) =>
-        if loaded.isEmpty then (r1, some (.err "No branches loaded"))
-        else
-          let sorted := sortByPH r1.arena loaded
-          let r2 := sorted.foldl loadLinkStep { r1 with branches := [] }
-          -- (repaired) only a branch that could be linked can be the longest
-          if r2.branches.isEmpty then (r2, some (.err "No branches linked"))
-          else
-            match longestOf r2.arena r2.branches with
-            | none => (r2, some (.panic "Longest: Last() on empty branch"))
-            | some lg =>
-              let r2 := { r2 with longest := lg }
-              match loadHistorical r2 with
-              | .error e => (r2, some e)
-              | .ok r3 => (r3, none)
+      | .ok (r1, loaded) => loadFinish r1 loaded
 
 /-! ### read API -/
 
